@@ -305,7 +305,8 @@ def harness_case(c):
 def event_case(rng, c):
     """the same final cluster reached through pod events after the full synchronisation: some pods appear (get their IP) only
     after Run, and one of those IPs belonged to a pod of ANOTHER namespace that is deleted first (IP reuse); no policy event
-    in between, so only the incremental path (UpdatePod / DeletePod -> SyncPodIPInIPSet, SyncPodChains) maintains the sets"""
+    in between, so only the incremental path (UpdatePod / DeletePod -> SyncPodIPInIPSet, SyncPodChains) maintains the sets;
+    sometimes followed by the event of an unrelated policy (full resynchronisation with every other spec unchanged)"""
     late = [p for p in c["pods"] if rng.random() < 0.5]
     if not late:
         late = [rng.choice(c["pods"])]
@@ -320,6 +321,11 @@ def event_case(rng, c):
         steps.append({"op": "del_pod", "ns": ghost["ns"], "name": ghost["name"]})
     for p in late:
         steps.append({"op": "set_pod", "pod": p})
+    if rng.random() < 0.6:
+        # ... and then an event of an UNRELATED policy (it selects no pod, so no verdict changes): the full resynchronisation
+        # it triggers must keep what the pod events built for the policies whose spec did not change
+        steps.append({"op": "set_policy", "policy": {"ns": c["namespaces"][0]["name"], "name": "unrelated", "sel": {"app": "zz-none"},
+                                                      "types": ["Ingress"], "ingress": [], "egress": []}})
     return {"prior": {"filter": [], "sets": []}, "cluster": c0, "steps": steps}
 
 
